@@ -19,7 +19,8 @@ Inductive binop := Add | Sub | Mul | Lt | Eq | Ne.
 Inductive expr :=
 | EVar (x : var)
 | EConst (z : Z)
-| EBin (o : binop) (a b : expr).
+| EBin (o : binop) (a b : expr)
+| EComp (v : var) (k : expr) (body : expr).        (* sum([body for v in range(k)]) / sum(body for v in range(k)) *)
 
 Inductive stmt :=
 | SAssign (l : N) (x : var) (e : expr)
@@ -77,6 +78,20 @@ Fixpoint eval (s : store) (e : expr) : option Z :=
       match eval s a with
       | None => None
       | Some va => match eval s b with None => None | Some vb => Some (bop o va vb) end
+      end
+  | EComp v k body =>
+      (* range(k) is evaluated in the enclosing scope, the body once per element with v bound; v does not leak *)
+      match eval s k with
+      | None => None
+      | Some n =>
+          (fix go (m : nat) (i acc : Z) {struct m} : option Z :=
+             match m with
+             | O => Some acc
+             | S m' => match eval (upd s v i) body with
+                       | None => None
+                       | Some b => go m' (i + 1)%Z (acc + b)%Z
+                       end
+             end) (Z.to_nat n) 0%Z 0%Z
       end
   end.
 
